@@ -560,6 +560,22 @@ impl Property for C20 {
             for x in p.extras / 2..p.extras {
                 let _ = std::fs::write(dir.join(format!("+EXTRA_AFTER_{:03}", x)), b"x");
             }
+            if p.extras % 2 == 1 {
+                // names that merely extend, shorten or re-case a mandatory name
+                // (editor backups, a half-typed name) are not that file (wave 17, C20-54)
+                for m in [FILE_NAMES[F_COMMENT], FILE_NAMES[F_CONTENTS], FILE_NAMES[F_DESC]] {
+                    for near in [
+                        format!("{}.orig", m),
+                        format!("{}~", m),
+                        m[..m.len() - 1].to_string(),
+                        m.to_lowercase(),
+                        format!(".{}", m),
+                    ] {
+                        let _ = std::fs::write(dir.join(near), b"near miss");
+                    }
+                }
+                ctx.fault("near_miss_mandatory_names");
+            }
             if p.crash_at < NFILES {
                 ctx.fault("crash_during_install");
                 if p.crash_at == 0 {
@@ -988,6 +1004,23 @@ impl Property for C20 {
                     }
                 }
             }
+            // one file there is a link to a file whose reported length (0) disagrees with what
+            // reading it returns, as files of procfs and of some network file systems do:
+            // the content is what read() delivers, not what stat() announces (wave 17, C20-53)
+            let mut sizeless: Option<(String, String)> = None;
+            if let Some(first) = second.iter().find(|p| !p.pkgname().is_empty() && !p.pkgname().contains('/')) {
+                let src = std::path::Path::new("/proc/version");
+                let announced = std::fs::metadata(src).map(|m| m.len()).ok();
+                let mut text = String::new();
+                let read_ok = std::fs::File::open(src).and_then(|mut f| std::io::Read::read_to_string(&mut f, &mut text)).is_ok();
+                if announced == Some(0) && read_ok && !text.is_empty() {
+                    let at = sd.path(&format!("db-other/{}/{}", first.pkgname(), FILE_NAMES[6]));
+                    if std::os::unix::fs::symlink(src, &at).is_ok() {
+                        ctx.fault("file_announcing_length_0_with_content");
+                        sizeless = Some((first.pkgname().clone(), text));
+                    }
+                }
+            }
             let others: Vec<pkgsrc::pkgdb::Package> = PkgDB::open(&sd.path("db-other"))
                 .map_err(|e| Violation::new("open-failed", format!("{}", e)))?
                 .take(budget)
@@ -1002,6 +1035,19 @@ impl Property for C20 {
                     o.pkgname(),
                     got
                 );
+                if let Some((name, text)) = &sizeless {
+                    if o.pkgname() == name {
+                        let got = o.read_metadata(MetadataEntry::Display);
+                        ensure!(
+                            got.as_deref().ok() == Some(text.as_str()),
+                            "metadata-content",
+                            "{} of the second database: +DISPLAY is a link to a file that announces length 0 and delivers {:?}; read_metadata returned {:?}",
+                            o.pkgname(),
+                            text,
+                            got
+                        );
+                    }
+                }
             }
         }
         // every listed package's metadata, read file by file ACROSS the packages,
